@@ -139,7 +139,15 @@ func decompressBounded(encoding string, data []byte, maxOutput int64) ([]byte, e
 		}
 		opts := []zstd.DOption{}
 		if maxOutput > 0 {
-			opts = append(opts, zstd.WithDecoderMaxMemory(uint64(maxOutput)))
+			// The decoder treats this as a memory bound and never accepts a
+			// window below its 1 KiB minimum, so a smaller cap would refuse
+			// every frame (even an empty one). The byte cap itself is enforced
+			// by the bounded read below.
+			mem := uint64(maxOutput)
+			if mem < zstd.MinWindowSize {
+				mem = zstd.MinWindowSize
+			}
+			opts = append(opts, zstd.WithDecoderMaxMemory(mem))
 		}
 		zr, err := zstd.NewReader(bytes.NewReader(data), opts...)
 		if err != nil {
